@@ -258,7 +258,38 @@ func (w *World) StepC04(op Op, cls Class, b, a *Snap) *Finding {
 			return &Finding{"collateral-conserved", "collateral-supply-changed", Denoms[dn]}
 		}
 	}
-	if op.Kind == "block" || op.Kind == "liquidate" {
+	if op.Kind == "liquidate" {
+		// keeper liquidation: the whole collateral of the cdp leaves custody, the keeper gets the reward exactly once,
+		// the rest goes to the auction module; nothing stays behind in the cdp module account
+		c, ok := b.cdpOf(op.O, op.T)
+		if !ok {
+			return &Finding{"keeper-liquidation-needs-cdp", "liquidated-missing-cdp", ""}
+		}
+		dn := cfg.Types[op.T].Denom
+		left := new(big.Int).Sub(b.Bal[CDPM][dn], a.Bal[CDPM][dn])
+		if !eq(left, c.Coll) {
+			return &Finding{"seized-collateral-leaves-custody", "keeper-liquidation-strands-collateral",
+				fmt.Sprintf("cdp %d collateral %s, module account released %s", c.ID, c.Coll, left)}
+		}
+		reward := rewardOf(w, c)
+		paid := false
+		for _, d := range b.depsOf(c.ID) {
+			if d.Amt.Cmp(reward) >= 0 {
+				paid = true
+			}
+		}
+		if !paid {
+			reward = new(big.Int)
+		}
+		gotK := new(big.Int).Sub(a.Bal[op.U][dn], b.Bal[op.U][dn])
+		gotA := new(big.Int).Sub(a.Bal[AUCM][dn], b.Bal[AUCM][dn])
+		if !eq(gotK, reward) || !eq(new(big.Int).Add(gotK, gotA), c.Coll) {
+			return &Finding{"seized-collateral-leaves-custody", "keeper-liquidation-collateral-split-wrong",
+				fmt.Sprintf("collateral %s: keeper got %s (reward %s), auctions got %s", c.Coll, gotK, reward, gotA)}
+		}
+		return nil
+	}
+	if op.Kind == "block" {
 		return nil
 	}
 	exp := make([][]*big.Int, NAcc)
@@ -638,6 +669,18 @@ func (w *World) blockLiquidation(op Op, b, a *Snap) *Finding {
 				lp := new(big.Rat).Quo(liq, new(big.Rat).SetFrac(a.Price[tc.LiqM], Pow10(18)))
 				eps := new(big.Rat).Mul(liq, new(big.Rat).Mul(ulp, ratTol(lp, lp, lp, big.NewRat(3, 1))))
 				eps.Add(eps, new(big.Rat).Mul(ulp, new(big.Rat).SetFrac(new(big.Int).Add(a.Price[tc.LiqM], Pow10(19)), Pow10(18))))
+				// since fix 2e356dd20 every candidate is confirmed with the fixed-point value ratio
+				// Quo(Mul(collateral, price), debt): its own 18-decimal roundings (one ulp on the
+				// collateral value, one on the quotient) are part of "beyond 18-decimal rounding";
+				// for tiny positions the first one dominates (value 2e-6 USD => relative 2.5e-13)
+				if r != nil && r.Sign() > 0 {
+					val := new(big.Rat).Mul(new(big.Rat).SetFrac(c.Coll, Pow10(int(tc.CF))), new(big.Rat).SetFrac(a.Price[tc.LiqM], Pow10(18)))
+					if val.Sign() > 0 {
+						rel := new(big.Rat).Quo(ulp, val)
+						rel.Add(rel, new(big.Rat).Quo(ulp, r))
+						eps.Add(eps, new(big.Rat).Mul(liq, new(big.Rat).Mul(rel, big.NewRat(2, 1))))
+					}
+				}
 				if r != nil && new(big.Rat).Add(r, eps).Cmp(liq) < 0 {
 					return &Finding{"block-liquidation-complete", "block-liquidation-missed-cdp-below-ratio",
 						fmt.Sprintf("cdp %d type %s ratio %s < %s not seized at the interval", c.ID, tc.Name, r.FloatString(24), tc.Liq)}
